@@ -439,9 +439,16 @@ func c05SCIONWorld(r *simcore.Run) any {
 			calm = false
 			ev0 := evaluated
 			ctx, cancel := simsync.WithTimeout(context.Background(), 300*time.Millisecond)
-			client.MeasureClockOffsetSCION(ctx, log, []*client.SCIONClient{cl}, laddr, raddr, []snet.Path{path})
+			_, mOff, mErr := client.MeasureClockOffsetSCION(ctx, log, []*client.SCIONClient{cl}, laddr, raddr, []snet.Path{path})
 			cancel()
 			simcore.SetTag("driver")
+			if evaluated == ev0 && mErr == nil {
+				// no attempt of this measurement accepted a datagram, and yet the caller is handed an
+				// offset (not an error): "every other datagram is skipped or yields an error, never
+				// an offset"
+				r.Fail("C05", "scion/offset-without-accepted-datagram", "measurement %d: no datagram was accepted (attacked: %v), yet MeasureClockOffsetSCION returned offset %v and no error", k, attacked, mOff)
+				return
+			}
 			if evaluated == ev0 {
 				rejected++
 				r.Probe("measurement-failed")
